@@ -77,9 +77,10 @@ let igmp_repr kv =
   | "report" -> IgmpReport (g, v)
   | _ -> IgmpLeave g
 let igmp_emit_op kv =
-  let res = igmp_emit wb_plain_fill (igmp_repr kv) (getb kv "buf") in
-  Printf.sprintf "ret %s | %s" (ob res)
-    (match res with Ok bs -> show_o igmp_show (igmp_parse bs) | _ -> "-")
+  let r = igmp_repr kv in
+  let res = igmp_emit wb_plain_fill r (getb kv "buf") in
+  Printf.sprintf "ret %s | %s | blen=%s" (ob res)
+    (match res with Ok bs -> show_o igmp_show (igmp_parse bs) | _ -> "-") (sz (igmp_buffer_len r))
 let igmp_parse_op kv =
   let bs = getb kv "bytes" in
   let c = igmp_check_len bs in
@@ -95,8 +96,8 @@ let v6frag_show r = Printf.sprintf "Ok off=%s more=%s ident=%s" (sz r.v6frag_off
 let v6frag_emit_op kv =
   let r = { v6frag_offset = geti kv "off"; v6frag_more = getbool kv "more"; v6frag_ident = geti kv "ident" } in
   let res = v6frag_emit r (getb kv "buf") in
-  Printf.sprintf "ret %s | %s" (ob res)
-    (match res with Ok bs -> show_o v6frag_show (v6frag_parse bs) | _ -> "-")
+  Printf.sprintf "ret %s | %s | blen=%s" (ob res)
+    (match res with Ok bs -> show_o v6frag_show (v6frag_parse bs) | _ -> "-") (sz (v6frag_buffer_len r))
 let v6frag_parse_op kv =
   let bs = getb kv "bytes" in
   let c = v6frag_check_len bs in
@@ -112,10 +113,10 @@ let v6ext_emit_op kv =
   let r = { v6ext_nxt = geti kv "nxt"; v6ext_length = geti kv "len"; v6ext_data = getb kv "data" } in
   let full = getbool kv "full" in
   let res = if full then v6ext_emit_full r (getb kv "buf") else v6ext_emit r (getb kv "buf") in
-  Printf.sprintf "ret %s | %s" (ob res)
+  Printf.sprintf "ret %s | %s | blen=%s" (ob res)
     (match res with
      | Ok bs -> show_o v6ext_show (v6ext_parse (if full then bs else bs @ r.v6ext_data))
-     | _ -> "-")
+     | _ -> "-") (sz (v6ext_buffer_len r))
 let v6ext_parse_op kv =
   let bs = getb kv "bytes" in
   let c = v6ext_check_len bs in
